@@ -40,7 +40,7 @@ def path_of(t):
             t = t.args[0]
         elif op == "iter":
             t = t.args[0]
-        elif op in ("cloned_iter", "adapted", "collected"):
+        elif op in ("cloned_iter", "adapted", "collected", "subset"):
             t = t.args[0]
         else:
             return None
